@@ -340,3 +340,22 @@ MUTANTS += [
       more=[(RINLINE, "type inlineRewriter struct {\n", "type inlineRewriter struct {\n\ttrailer string\n")]),
     B("c10-benign-switch-to-if", "C10", ESER, "\t\t// encode the length of environment map\n\t\tswitch {\n\t\tcase len(envFieldLocators) < 16:\n\t\t\tposition = fastmsgpack.EncodeMapLen4(buffer, position, len(envFieldLocators))\n\t\tdefault:\n\t\t\tposition = fastmsgpack.EncodeMapLen16(buffer, position, len(envFieldLocators))\n\t\t}", "\t\t// encode the length of environment map\n\t\tif len(envFieldLocators) < 16 {\n\t\t\tposition = fastmsgpack.EncodeMapLen4(buffer, position, len(envFieldLocators))\n\t\t} else {\n\t\t\tposition = fastmsgpack.EncodeMapLen16(buffer, position, len(envFieldLocators))\n\t\t}"),
 ]
+
+QDIRS = "buffer/hybridbuffer/queuedirs.go"
+
+MUTANTS += [
+    # ---------------- C06
+    M("c06-r1-revert-length-prefix-lcm", "C06", "C06.R1", LCM, "\t\ttempMergedKey = strconv.AppendInt(tempMergedKey, int64(len(tkey)), 10)\n\t\ttempMergedKey = append(tempMergedKey, ':')\n\t\ttempMergedKey = append(tempMergedKey, tkey...)", "\t\t_ = strconv.AppendInt\n\t\ttempMergedKey = append(tempMergedKey, tkey...)", "key tuples ('ab','c') and ('a','bc')"),
+    M("c06-r1-revert-length-prefix-metrics", "C06", "C06.R1", LPCS, "\t\ttempMergedKey = strconv.AppendInt(tempMergedKey, int64(len(tkey)), 10)\n\t\ttempMergedKey = append(tempMergedKey, ':')\n\t\ttempMergedKey = append(tempMergedKey, tkey...)", "\t\t_ = strconv.AppendInt\n\t\ttempMergedKey = append(tempMergedKey, tkey...)", "metric key tuples ('ab','c') and ('a','bc')"),
+    M("c06-r1-separator-only", "C06", "C06.R1", LCM, "\t\ttempMergedKey = strconv.AppendInt(tempMergedKey, int64(len(tkey)), 10)\n\t\ttempMergedKey = append(tempMergedKey, ':')\n\t\ttempMergedKey = append(tempMergedKey, tkey...)", "\t\t_ = strconv.AppendInt\n\t\ttempMergedKey = append(tempMergedKey, ':')\n\t\ttempMergedKey = append(tempMergedKey, tkey...)", "key values containing ':' : ('a:b','c') and ('a','b:c')"),
+    M("c06-r1-length-without-delimiter", "C06", "C06.R1", LCM, "\t\ttempMergedKey = append(tempMergedKey, ':')\n", "", "('2a') vs lengths that continue into digits of the value: '1'+'2…' and '12'+'…'"),
+    M("c06-r1-length-of-wrong-thing", "C06", "C06.R1", LCM, "\t\ttempMergedKey = strconv.AppendInt(tempMergedKey, int64(len(tkey)), 10)\n", "\t\ttempMergedKey = strconv.AppendInt(tempMergedKey, int64(len(tempKeys)), 10)\n", "('ab','c') and ('a','bc'): the prefix is the tuple size, not the value length"),
+    M("c06-r3-tag-from-first-key", "C06", "C06.R3", ORC, "\toutputTag := o.tagBuilder.Build(keys)\n", "\toutputTag := o.tagBuilder.Build(keys[:1])\n", "two key fields: pipelines differing in the second field share a tag (and Build indexes past the slice)"),
+    M("c06-r3-bufferid-constant", "C06", "C06.R3", PIPE, "\t\t\t\toutputLogger,\n\t\t\t\tbufferID,\n", "\t\t\t\toutputLogger,\n\t\t\t\tpair.Name,\n", "two key sets: both queue into the directory named after the output"),
+    M("c06-r3-chunkmaker-other-tag", "C06", "C06.R3", PIPE, "\t\t\t\tchunkMaker: pair.OutputConfig.Value.NewChunkMaker(outputLogger, outputTag),", "\t\t\t\tchunkMaker: pair.OutputConfig.Value.NewChunkMaker(outputLogger, bufferID),", "any pipeline: chunks carry the queue id instead of the tag"),
+    M("c06-r5-id-file-sanitised", "C06", "C06.R5", QDIRS, "\tif err := os.WriteFile(filepath.Join(path, idFileName), []byte(bufferID), 0o644); err != nil {", "\tif err := os.WriteFile(filepath.Join(path, idFileName), []byte(sanitizeDirName(bufferID)), 0o644); err != nil {", "a key value containing '/': recovered under another key"),
+    M("c06-r5-recover-dirname", "C06", "C06.R5", QDIRS, "\t\t\tvalidBufferIDList = append(validBufferIDList, id)\n", "\t\t\tvalidBufferIDList = append(validBufferIDList, name)\n", "any restart with queued chunks: ids carry the hash suffix, pipelines of unknown key sets"),
+    B("c06-benign-binary-length", "C06", LCM, "\t\ttempMergedKey = strconv.AppendInt(tempMergedKey, int64(len(tkey)), 10)\n\t\ttempMergedKey = append(tempMergedKey, ':')\n", "\t\t_ = strconv.AppendInt\n\t\ttempMergedKey = binary.BigEndian.AppendUint32(tempMergedKey, uint32(len(tkey)))\n",
+      more=[(LCM, "import (\n\t\"strconv\"\n", "import (\n\t\"encoding/binary\"\n\t\"strconv\"\n")]),
+    B("c06-benign-delimiter-char", "C06", LCM, "\t\ttempMergedKey = append(tempMergedKey, ':')\n", "\t\ttempMergedKey = append(tempMergedKey, '|')\n"),
+]
